@@ -132,7 +132,9 @@ func runTasks(tasks []C19Task, s *simrt.Sched, only int) *c19Run {
 		if ran.Child() && reason != "call-end" {
 			// steps of goroutines the library started (there may be thousands per call): what they
 			// change is seen at the next step of a caller task; the no-synchronisation clause
-			// cannot speak about them anyway (being started is a synchronisation operation)
+			// cannot speak about them anyway (being started is a synchronisation operation) - and
+			// what is seen at that next step cannot be attributed to the task that takes it
+			monSkipped = true
 			return
 		}
 		// a call that hands work to goroutines over a channel blocks thousands of times: beyond
